@@ -307,12 +307,18 @@ class Interp:
             except Unmodelled:
                 base = None
             if isinstance(base, Rec):
+                if n.attr not in base.f and isinstance(base.f.get('cls'), str):
+                    cm_, val_ = self.a.res.class_attr(base.f['cls'], n.attr)
+                    if val_ is not None and not isinstance(val_, (ast.FunctionDef, ast.ClassDef)):
+                        return self.a.folder.fold(val_, cm_, None, base.f['cls'])
                 return base.get(n.attr)
             if isinstance(base, Obj):
                 if n.attr in base.fields:
                     return base.fields[n.attr]
                 raise Unmodelled(f'{base!r} has no field {n.attr}')
             if isinstance(base, PyModel):
+                if not hasattr(base, n.attr):
+                    raise Unmodelled(f'model object has no attribute {n.attr}')
                 return getattr(base, n.attr)
             try:
                 return self.a.folder.fold(n, self.m, None, self.self_class)
@@ -436,8 +442,17 @@ class Interp:
         kwargs = {k.arg: self.ev(k.value) for k in n.keywords}
         if isinstance(fn, ast.Attribute):
             recv = self._safe_ev(fn.value)
-            if isinstance(recv, PyModel):
+            if isinstance(recv, PyModel) and hasattr(recv, fn.attr):
                 return getattr(recv, fn.attr)(*args, **kwargs)
+            if isinstance(recv, Rec) and 'cls' in recv.f and isinstance(recv.f['cls'], str) and self.depth < 4 \
+                    and not (isinstance(fn.value, ast.Name) and fn.value.id in self.effects):
+                cm_, meth_ = self.a.res.class_attr(recv.f['cls'], fn.attr)
+                if isinstance(meth_, ast.FunctionDef):
+                    sub_sc, self.self_class = self.self_class, recv.f['cls']
+                    try:
+                        return self._inline(cm_, meth_, [recv] + args, kwargs)
+                    finally:
+                        self.self_class = sub_sc
             if isinstance(recv, (str, int, float)) and not isinstance(recv, bool) and (
                     fn.attr in _STR_METHODS or fn.attr in _NUM_DUNDERS):
                 try:
@@ -483,10 +498,25 @@ class Interp:
             om_, onode_ = self.a.res.lookup(ref)
             if isinstance(onode_, ast.ClassDef):
                 self.out.events.append(('construct', (ref,) + tuple(args)))
-                return Rec(cls=ref, args=tuple(args), kwargs=kwargs)
+                inst = Rec(cls=ref, args=tuple(args), kwargs=kwargs)
+                for ctor in ('__new__', '__init__'):
+                    cm_, cfn = self.a.res.class_attr(ref, ctor)
+                    if isinstance(cfn, ast.FunctionDef):
+                        params = [a.arg for a in cfn.args.args][1:]
+                        bound = dict(zip(params, args))
+                        bound.update(kwargs)
+                        for st in ast.walk(cfn):
+                            if isinstance(st, ast.Assign) and len(st.targets) == 1 and isinstance(st.targets[0], ast.Attribute) \
+                                    and isinstance(st.targets[0].value, ast.Name) and isinstance(st.value, ast.Name) \
+                                    and st.value.id in bound and st.targets[0].attr not in inst.f:
+                                inst.set(st.targets[0].attr, bound[st.value.id])
+                return inst
         if self.inline_pkg and ref and self.depth < 4:
             om, onode = self.a.res.lookup(ref)
             if isinstance(onode, ast.FunctionDef):
+                is_cm = any(isinstance(d, ast.Name) and d.id == 'classmethod' for d in onode.decorator_list)
+                if is_cm:
+                    raise Unmodelled(f'call of classmethod {ref} needs a model')
                 return self._inline(om, onode, args, kwargs)
         if self.depth < 4:
             # nested closure of the analysed function / private method of the analysed class
